@@ -343,6 +343,8 @@ def random_nested_case(rng):
             m = rng.choice(["add", "update", "ior", "ixor", "iand", "isub", "symmetric_difference_update", "discard", "remove", "spop", "clear",
                             "intersection_update", "difference_update"])
             args = [] if m in ("spop", "clear") else ([leaf()] if m in ("add", "discard", "remove") else [lst(4)])
+            if m in ("update", "difference_update", "intersection_update") and rng.random() < 0.5:
+                args = [lst(3), lst(3)]          # several iterables in one call
             ops.append([["st"], m, args])
         elif t == "dc":
             m = rng.choice(["dsetitem", "update", "ior", "setdefault", "dpop", "popitem", "clear"])
